@@ -325,6 +325,29 @@ def severable_digests(ctx):
     for n in sorted(sev):
         R.check("C01-D3 no severable member skipped", n in handled, n, mod=fi.module, node=fi.node, function=fq,
                 expected=f"{n} is in the list iterated by update_severable_digests", found=f"handled: {sorted(handled)}", key_extra=n)
+    # the loop over the members runs to its end: a `break` / `return` that belongs to it leaves every later member with the digest
+    # that was supplied (the evaluator unrolls the loop over the static list member by member and does not carry a break across)
+    def _own_exits(loop):
+        out, todo = [], list(loop.body) + list(loop.orelse)
+        while todo:
+            x = todo.pop()
+            if isinstance(x, (ast.FunctionDef, ast.AsyncFunctionDef, ast.Lambda, ast.ClassDef)):
+                continue
+            if isinstance(x, (ast.For, ast.AsyncFor, ast.While)):
+                todo.extend(y for y in ast.walk(x) if isinstance(y, ast.Return))
+                continue
+            if isinstance(x, (ast.Break, ast.Return)):
+                out.append(x)
+            todo.extend(ast.iter_child_nodes(x))
+        return out
+    for loop in [n_ for n_ in ast.walk(fi.node) if isinstance(n_, (ast.For, ast.While))]:
+        hashes = [c for c in ast.walk(loop) if isinstance(c, ast.Call) and isinstance(c.func, ast.Attribute) and c.func.attr in ("hash", "to_cbor")]
+        if not hashes:
+            continue
+        early = _own_exits(loop)
+        R.check("C01-D3 no severable member skipped", not early, "the refresh loop visits every member", mod=fi.module, node=early[0] if early else loop,
+                function=fq, expected="no break / return ends the loop over the severable members before the last one",
+                found=f"{type(early[0]).__name__.lower()} at line {early[0].lineno}: the members after the current one keep the supplied digest" if early else "")
     R.rule("C01-D2b severed member digest", 4 * len(sev), "per member: tested, hashed (wrapped, from the envelope), algorithm and result all belong to that member")
     R.rule("C01-D4 unconditional overwrite", 2 * len(sev), "the store is guarded only by 'manifest references the member by digest' (and presence in the envelope)")
     for n, lst in sorted(handled.items()):
